@@ -15,7 +15,7 @@ ASSUMPTIONS = ["float32 learner vs float64 reference agree to 2e-5 over <= 50 up
                "SARSA with epsilon>0 and double Q-learning are decided on short histories by enumerating the unobservable coin outcomes"]
 TIERS = {"quick": {"runs": 400}, "thorough": {"runs": 12000}}
 REQUIRED = ["q_learning_histories", "sarsa_greedy_histories", "sarsa_single_steps", "double_q_histories", "double_q_single_step_distinct_successor",
-            "monte_carlo_histories", "monte_carlo_repeated_visits", "dynaq_direct_histories", "dynaq_model_histories", "terminated_step", "truncated_step", "stochastic_successor"]
+            "monte_carlo_histories", "monte_carlo_repeated_visits", "dynaq_direct_histories", "dynaq_model_histories", "dynaq_training_model_histories", "terminated_step", "truncated_step", "stochastic_successor"]
 REQUIRED_QUICK = REQUIRED
 SHRINK_LISTS = [["script"]]
 SHRINK_INTS = [(["T"], 1)]
